@@ -65,6 +65,28 @@ def param_family_case(draw):
 
 
 @st.composite
+def bound_family_case(draw):
+    """tiny LPs that differ ONLY in declared bounds: `x >= 0` written as a bare comparison, x absent from the objective"""
+    lbx = draw(st.sampled_from([None, -5, 0, -1]))
+    ubx = draw(st.sampled_from([1, 10, 3, 4]))
+    lby, uby = draw(st.sampled_from([(-5, 10), (0, 3), (1, 10), (-5, 0)]))
+    cy = draw(st.sampled_from([1, -1, 2, -3]))
+    sense = draw(st.sampled_from(["minimize", "maximize"]))
+    env = {"scalars": [{"name": "x", "lb": lbx, "ub": ubx}, {"name": "y", "lb": lby, "ub": uby}], "vectors": [], "matrices": [],
+           "params": [], "views": {}}
+    a = draw(st.sampled_from([1, 2, -1]))
+    b = draw(st.sampled_from([0, 1, 2]))
+    cons = [{"kind": "scalar", "lhs": ["var", "x"], "sense": ">=", "rhs": 0, "written": "direct", "rows": [[[1.0, 0.0], ">=", 0.0]]},
+            {"kind": "scalar", "lhs": ["bin", "+", ["bin", "*", ["const", "pyfloat", float(a)], ["var", "x"]], ["var", "y"]],
+             "sense": draw(st.sampled_from(["<=", ">="])), "rhs": float(b), "written": "direct", "rows": None}]
+    cons[1]["rows"] = [[[float(a), 1.0], cons[1]["sense"], float(b)]]
+    model = {"family": "lp", "env": env, "names": ["x", "y"], "objective": ["bin", "*", ["const", "pyfloat", float(cy)], ["var", "y"]],
+             "sense": sense, "constraints": cons, "flavour": "open", "forms": ["var>=0", "bounds-only-family"],
+             "data": {"c": [0.0, float(cy)], "c0": 0.0, "bounds": [[lbx, ubx], [lby, uby]], "xhat": [0.0, 0.0]}}
+    return ["c08", {"model": model, "method": draw(st.sampled_from(["auto", "highs", "linprog"])), "edit": None, "third": None}]
+
+
+@st.composite
 def cases(draw):
     old = gen.TINY
     gen.TINY = True
@@ -72,9 +94,13 @@ def cases(draw):
         k = draw(st.integers(1, 6))
         items = []
         pfam = draw(st.integers(0, 2)) == 0
+        bfam = (not pfam) and draw(st.integers(0, 3)) == 0
         for _ in range(k + 1):
             if pfam and draw(st.booleans()):
                 items.append(draw(param_family_case()))
+                continue
+            if bfam and draw(st.booleans()):
+                items.append(draw(bound_family_case()))
                 continue
             part = draw(st.sampled_from(PARTS))
             items.append([part, draw(_mod(part).strategy("quick"))])
